@@ -270,19 +270,30 @@ def cli_argv(op):
         argv = ["tum"] + list(op["inputs"])
     else:
         argv = list(op["inputs"])
+    via = set(op.get("via_config", ()))
     for key in ("save_plot", "serialize_plot", "save_results", "save_table",
                 "ref"):
-        if o.get(key):
+        if o.get(key) and key not in via:
             argv += ["--" + key, o[key]]
     for key in ("save_as_tum", "save_as_kitti", "align", "merge"):
-        if o.get(key):
+        if o.get(key) and key not in via:
             argv.append("--" + key)
     argv += list(op.get("extra", ()))
     if op.get("no_warnings"):
         argv.append("--no_warnings")
-    if op.get("no_warnings_via_config"):
-        argv += ["-c", "in/nw.json"]
+    if op_config(op):
+        argv += ["-c", "in/opcfg.json"]
     return argv
+
+
+def op_config(op):
+    """content of the -c config file of a CLI operation (options that are
+    given through the file instead of on the command line)"""
+    cfg = {k: op["opts"][k] for k in op.get("via_config", ())
+           if op["opts"].get(k)}
+    if op.get("no_warnings_via_config"):
+        cfg["no_warnings"] = True
+    return cfg
 
 
 class C17(Check):
@@ -343,7 +354,7 @@ class C17(Check):
         "no_warnings_via_config", "confirmed_replaced", "declined_kept",
         "disk_fault_fired", "same_process_second_save",
         "colliding_outputs_in_one_command", "target_is_symlink",
-        "target_appeared_during_command",
+        "target_appeared_during_command", "output_path_from_config",
     )
 
     def setup_worker(self):
@@ -496,6 +507,14 @@ class C17(Check):
                 st["plot_seaborn_enabled"] = False
             if st:
                 op["settings"] = st
+        if kind.startswith("cli_") and kind != "cli_generate" and (
+                rng.random() < 0.15):
+            # some output options come from a -c config file instead
+            keys = [k for k in ("save_plot", "serialize_plot", "save_results",
+                                "save_table", "save_as_tum", "save_as_kitti")
+                    if op["opts"].get(k)]
+            if keys:
+                op["via_config"] = rng.sample(keys, rng.randint(1, len(keys)))
         # pre-existing targets
         exact, globs = expected_outputs(op)
         cands = list(exact)
@@ -762,6 +781,11 @@ class C17(Check):
                         os.unlink(rel)
                     with open(rel, "wb") as f:
                         f.write(blob)
+                if "opts" in op and op_config(op):
+                    with open("in/opcfg.json", "w") as f:
+                        json.dump(op_config(op), f)
+                    if op.get("via_config"):
+                        res.stats["probe.output_path_from_config"] += 1
                 before = sb.snapshot()
                 S["plot_split"] = bool(op.get("plot_split"))
                 S["plot_backend"] = "Agg"
